@@ -151,8 +151,16 @@ class Tmatrix(ScatteringTheory):
             raise TmatrixFailure(_AMPLD_ERRORS.get(ierr, 'error %d' % ierr))
         for s in [s11, s12, s21, s22]:
             s *= (-2j*np.pi/med_wavelen)
-        scat_matr = np.array([[s11, s12], [s21, s22]]).transpose()
-        return scat_matr
+        # ampld's amplitude matrix refers the incident field to the fixed
+        # x-z plane (phi0 = 0) and uses (theta-hat, phi-hat) components.
+        # HoloPy's convention (Bohren & Huffman, as returned by Mie) refers
+        # both fields to the scattering plane, with perp = -phi-hat:
+        #     S = diag(1,-1) . L . R(phi)^T . diag(1,-1)
+        phi = args[13] * np.pi / 180
+        c, sn = np.cos(phi), np.sin(phi)
+        scat_matr = np.array([[s11*c + s12*sn, s11*sn - s12*c],
+                              [-s21*c - s22*sn, s22*c - s21*sn]])
+        return np.moveaxis(scat_matr, -1, 0)
 
     def raw_fields(self, pos, scatterer, medium_wavevec, medium_index,
                     illum_polarization):
@@ -175,10 +183,7 @@ class Tmatrix(ScatteringTheory):
 
         for i, point in enumerate(pos.T):
             kr, theta, phi = point
-            # TODO: figure out why postfactor is needed -- it is not used in dda.py
-            postfactor = np.array([[np.cos(phi),np.sin(phi)],
-                                   [-np.sin(phi),np.cos(phi)]])
-            escat_sph = mieangfuncs.calc_scat_field(kr, phi,
-                                    np.dot(scat_matr[i],postfactor), [1,0])
+            escat_sph = mieangfuncs.calc_scat_field(kr, phi, scat_matr[i],
+                                                    [1, 0])
             fields[i] = mieangfuncs.fieldstocart(escat_sph, theta, phi)
         return fields.T
